@@ -441,6 +441,14 @@ class C09(Prop):
                     ops.append(mk('dec %s b%s' % (t, (pre + hb + b'\xa0' + post).hex()), k='nest-prot', n=k))
                 ops.append(mk('dec CoseSign b%s' % (b'\x84\x40\xa0\xf6\x81\x83\x40' + h + b'\x40').hex(), k='nest-signer', n=k))
                 ops.append(mk('dec CoseEncrypt b%s' % (b'\x84\x40\xa0\xf6\x81\x83' + hb + b'\xa0\xf6').hex(), k='nest-recipient', n=k))
+        # relations across the two buckets are not the decoder's business: IV in one and Partial IV in the other (both ways), the same label in
+        # both, the same entries in both — each bucket is a header on its own (informed round 14: COSE_Encrypt0 refused IV / Partial IV across buckets)
+        for pm, um in (('a1054401020304', 'a106420a0b'), ('a10643010203', 'a105420a0b'), ('a10126', 'a10126'), ('a1044131', 'a1044131'), ('a1044131', 'a1044132'), ('a201260442' + '3131', 'a2044231310126'[:0] + 'a20126044231' + '31'), ('a1054101', 'a1054101'), ('a11863f6', 'a11863f6')):
+            pb_ = refcbor.head(2, len(pm) // 2).hex() + pm
+            for t, pre, post in (('CoseSign1', '84', 'f640'), ('CoseMac0', '84', 'f640'), ('CoseEncrypt0', '83', '43c0ffee'), ('CoseRecipient', '83', 'f6'), ('CoseSignature', '83', '40'),
+                                 ('CoseSign', '84', 'f680'), ('CoseEncrypt', '84', 'f680'), ('CoseMac', '85', 'f64080')):
+                ops.append(mk('dec %s b%s' % (t, pre + pb_ + um + post), k='cross-bucket'))
+            ops.append(mk('dec CoseSign b8440a0f68183' + pb_ + um + '40', k='cross-bucket')); ops.append(mk('dec CoseEncrypt b8440a0f68183' + pb_ + um + 'f6', k='cross-bucket'))
         # width and depth together, at signers and recipients: n of them, one carrying a chain of k counter signatures
         sgp = b'\x83\x40\xa0\x41\x01'; rcp_ = b'\x83\x40\xa0\xf6'
         for n in (2, 16, 17, 32, 33):
@@ -539,6 +547,13 @@ class C11(Prop):
                 ops.append(mk(op, k='coincide'))
         for H in ('(hdr - (crit) - b0a0b b0a0b b (cs) (rest))', '(hdr - (crit) - b0a0b b b0a0b (cs) (rest))', '(hdr - (crit) - b01 b01 b (cs) (rest))', '(hdr - (crit) - b b07 b (cs) (rest i9 b07))'):
             for op in ('enc Header %s', 'tov Header %s', 'tobstr (ph - %s)', 'enc CoseSign1 (sign1 (ph - %s) (hdr - (crit) - b b b (cs) (rest)) b70 b01)', 'enc CoseEncrypt0 (enc0 (ph - %s) (hdr - (crit) - b b b (cs) (rest)) b70)', 'isempty %s'): ops.append(mk(op % H, k='coincide'))
+        # an extra entry under the label of a typed field that is unset: emitted like any other (informed round 14: the Base IV arm of the key
+        # encoder recorded the key_ops label as emitted)
+        for kx in ('(key A4 b - (ops) b01 (params i4 b02 i-1 b03))', '(key A4 b - (ops) b (params i2 b01))', '(key A4 b01 - (ops) b (params i5 b02))', '(key A4 b - (ops A1) b (params i3 i-7))', '(key A4 b01 A-7 (ops) b (params i4 (arr i1) i5 b09))',
+                   '(key A4 b - (ops) b01 (params i3 i-7 i4 (arr i2)))', '(key A4 b - (ops) b (params i5 b01 i4 (arr i1) i3 i1 i2 b02))'):
+            for op in ('enc CoseKey %s', 'tov CoseKey %s', 'enc CoseKeySet (keyset %s)'): ops.append(mk(op % kx, k='typed-label-extra:stored'))
+        for hx_ in ('(hdr - (crit) - b b b (cs) (rest i4 b01))', '(hdr - (crit) - b b01 b (cs) (rest i6 b02))', '(hdr - (crit) - b b b02 (cs) (rest i5 b01))', '(hdr A-7 (crit) - b b b (cs) (rest i3 i0 i2 (arr i1)))', '(hdr - (crit) A0 b b b (cs) (rest i1 i-7))'):
+            for op in ('enc Header %s', 'tov Header %s', 'tobstr (ph - %s)'): ops.append(mk(op % hx_, k='typed-label-extra:stored'))
         # empty entries in lists of byte strings, at any index (informed round 13: SuppPrivInfo read back through the non-empty helper)
         for pv in ('b', 'b b', 'b010203 b', 'b b010203', 'b01 b b02'):
             ops.append(mk('enc CoseKdfContext (kdf A1 (party - - -) (party b b b) (supp i128 (ph - %s) b) (priv %s))' % (C02.EMPTY, pv), k='empty-entry'))
@@ -678,6 +693,15 @@ class C12(Prop):
             if c < 0.4: ops.append(mk('dec Header b' + h.hex(), k='dup:deep', dup=True, n=k))
             elif c < 0.7: ops.append(mk('dec CoseSign1 b' + (b'\x84\x40' + h + b'\xf6\x40').hex(), k='dup:deep', dup=True, n=k))
             else: ops.append(mk('dec CoseEncrypt0 b' + (b'\x83' + refcbor.head(2, len(h)) + h + b'\xa0\xf6').hex(), k='dup:deep', dup=True, n=k))
+        # a repeated label in one bucket beside a fault in the other (or in a later slot): what is examined first in the crate's order decides
+        # (informed round 14: the protected bucket of a signature converted before the unprotected one)
+        for _ in range(budget(tier, 300, 4000)):
+            m = dupmap('Header'); badp = r.choice([b'\x41\x01', b'\x43\xa1\x01\x00'[:0] + b'\x42\xa1\x01', b'\x00', b'\x41\x80'])
+            for hx in (b'\x83' + badp + m + b'\x40', b'\x83\x40' + m + b'\x00', b'\x83' + refcbor.head(2, len(m)) + m + b'\x00\x40', b'\x83' + refcbor.head(2, len(m)) + m + b'\xa0\x00'):
+                ops.append(mk('dec CoseSignature b' + hx.hex(), k='dup:sibling-fault', dup=True)); ops.append(mk('dec CoseSign b' + (b'\x84\x40\xa0\xf6\x81' + hx).hex(), k='dup:sibling-fault', dup=True))
+                ops.append(mk('dec Header b' + (b'\xa1\x07' + hx).hex(), k='dup:sibling-fault', dup=True))
+            for hx in (b'\x84' + badp + m + b'\xf6\x40', b'\x84\x40' + m + b'\x00\x40', b'\x84\x40' + m + b'\xf6\x00'):
+                ops.append(mk('dec CoseSign1 b' + hx.hex(), k='dup:sibling-fault', dup=True)); ops.append(mk('dec CoseMac0 b' + hx.hex(), k='dup:sibling-fault', dup=True))
         # encode side: extras repeating a label / naming a typed label
         for _ in range(budget(tier, 2500, 40000)):
             c = r.random()
